@@ -405,6 +405,8 @@ func c13ReplayRun(c *ctx, rd *c13Reader) {
 		env.extendedCase(cs, true)
 	case "additive":
 		env.additiveCase(cs)
+	case "concurrent":
+		c.c13ConcReplay(rd, cs)
 	case "multiply", "alter":
 		out := env.mulJudge(cs, cs.Msg != "R1", true)
 		fmt.Println("replay outcome:", out.Outcome, "prediction:", out.Pred, out.PredNote)
